@@ -24,7 +24,7 @@ def run(chk, tier, seed):
     if U is None:
         chk.broken.append("harness does not build against /repo: " + binary[-1500:])
         return
-    roots = D.roots_for(U, exclude=())
+    roots = D.roots_for(U, exclude=("arrayvec",))
     lines, meta = [], {}
     n = 0
     for ri, r in roots:
